@@ -3,9 +3,8 @@ from vlib import tlc, harness
 from props import c07
 
 
-def run(rep, tier, seed):
+def models(rep, tier):
     quick = tier == "quick"
-    qbin = harness.build("vh-queue")
     if c07.impl_models(rep, "deque", "DequeImpl", quick):
         r = tlc.run_tlc("deque", "DequeImpl", "MC_pingpong.cfg", workers=6, timeout=900)
         rep.add_tlc("DequeImpl/MC_pingpong.cfg", r, "two waiters on one cond (busy signalling): safety only")
@@ -14,4 +13,9 @@ def run(rep, tier, seed):
         for cfg in ("MC_asis_popfirst.cfg", "MC_asis_signal.cfg", "MC_asis_close.cfg", "MC_asis_helper.cfg"):
             r = tlc.run_tlc("deque", "DequeImpl", cfg, workers=4, timeout=600)
             rep.self_test("DequeImpl/%s shows the pre-fix stuck waiter (NoStuck not vacuous)" % cfg, r.violated == "NoStuck", str(r.brief()))
+
+
+def stepped(rep, tier, seed):
+    quick = tier == "quick"
+    qbin = harness.build("vh-queue")
     c07.stepped(rep, "deque", "DequeStep", "DequeLinTrace", qbin, "sched", quick, seed, "deque")
